@@ -681,9 +681,9 @@ impl Board {
             output.xor(!self.turn, captured, dest_bb);
             output.half_move_clock = 0;
         } else {
-            output.half_move_clock += 1;
+            output.half_move_clock = output.half_move_clock.saturating_add(1);
         }
-        output.full_move_clock += self.turn as u16;
+        output.full_move_clock = output.full_move_clock.saturating_add(self.turn as u16);
 
         output.castle_rights.remove_for_sq(!self.turn, mv.dest);
         output.castle_rights.remove_for_sq(self.turn, mv.source);
